@@ -1,5 +1,6 @@
 #define _POSIX_C_SOURCE 200809L
 #include "list_string.h"
+#include "gc.h"
 #include <stdlib.h>
 #include <stdio.h>
 #include <string.h>
@@ -119,8 +120,10 @@ void list_string_set(List_string *list, int index, const char *value) {
         exit(1);
     }
     
+    /* Copy first: value may be the element being replaced (list_string_set l i (list_string_get l i)) */
+    char *copy = strdup(value);
     free(list->data[index]);  /* Free old string */
-    list->data[index] = strdup(value);  /* Copy new string */
+    list->data[index] = copy;
 }
 
 /* Get the value at the specified index */
@@ -131,7 +134,14 @@ char* list_string_get(List_string *list, int index) {
         exit(1);
     }
     
-    return list->data[index];
+    /* Hand out a GC-managed copy: the list frees its own strdup()s in set / clear / free,
+     * a caller that keeps the result across such a call must not be left with a dangling pointer */
+    const char *s = list->data[index];
+    size_t n = strlen(s);
+    char *copy = gc_alloc_string(n);
+    if (!copy) return list->data[index];
+    memcpy(copy, s, n + 1);
+    return copy;
 }
 
 /* Clear all elements from the list */
